@@ -271,10 +271,34 @@ def eval_wire_choices(repo, rule, modules=None):
                     rule.violation(where, fq, term, "fresh witnesses are allocated in a value-dependent order: the same names are bound "
                                    "to different wire numbers for different inputs, so the constraints mention different wires",
                                    "%s/wire/alloc-order/%s" % (fq, ttxt))
-        if len(rets) > 1:
+        # returns are alternatives of one another only where the same public input can reach both: returns in different arms
+        # of a public dispatch (isinstance(other, int) / isinstance(other, LinComb), a public flag) are not compared
+        def _excl(a, b):
+            for ida, ta, pa in a["pub"]:
+                for idb, tb, pb in b["pub"]:
+                    if ida == idb and pa != pb:
+                        return True
+                    if pa and pb and ta != tb and ta.startswith("isinstance(") and tb.startswith("isinstance(") \
+                            and ta.split(",")[0] == tb.split(",")[0]:
+                        return True       # type dispatch on the same operand: the arms of `if/elif isinstance` written as two ifs
+            return False
+        comps = []
+        for w in rets:
+            home = [c for c in comps if any(not _excl(w, x) for x in c)]
+            merged = [w]
+            for c in home:
+                merged += c
+                comps.remove(c)
+            comps.append(merged)
+        from ..flatten import resolve_locals as _rl5
+        assigned_wires = {a["name"] for a in assigns}
+        for rets in comps:
+          if len(rets) > 1:
             sk = {}
             for w in rets:
                 v = w["value"]
+                if not isinstance(v, ast.Name):
+                    v = _rl5(fi.node, v, keep=set(w["tainted_names"]) | assigned_wires)
                 s_ = None
                 if isinstance(v, ast.Name):
                     # the name's assignment(s) under tainted control decide; if consistent use that skeleton
